@@ -17,7 +17,7 @@ from .core import Outcome, PropertySpec, enc
 from gemdat.collective import Collective  # noqa: E402
 
 PID = 'C12'
-MODULES = ['GProofs.Geometry', 'GProofs.C12', 'GProofs.C12Gen']
+MODULES = ['GProofs.Geometry', 'GProofs.C12', 'GProofs.C12Gen', 'GProofs.C12Win']
 COLS = ['atom index', 'start site', 'destination site', 'start time', 'stop time']
 
 
@@ -289,7 +289,7 @@ SPEC = PropertySpec(
     modules=MODULES,
     run=run,
     replay=replay,
-    gen=translate.gen_for('PairGuard'),
+    gen=translate.gen_for('PairGuard', 'FormulasC12'),
     rule=('random jump tables of 2-14 distinct rows (4 atoms, 3-7 sites on a k/8 grid of a pool lattice incl. triclinic ones, start '
           'times 0..40, 40% long transits overlapping many other jumps), window 0-5, cut-off from {0.5,1,2,3,4.5,6} kept >= 1e-6 from '
           'every site distance; through Collective(...) directly and 30 (200) through Jumps.collective() — half of them with a site structure carrying a 3-6 % '
